@@ -593,6 +593,23 @@ pub fn corpus() -> Vec<Item> {
             sk.lf_global_prefix = Some(write_patches(&refs[..1], 1, &CodeOpts { use_prefix: true, ..Default::default() }));
             out.push(item("rgba-24x20-patches-layer-under-patched-keyframe", &img, vec![encode_frame(&img, &d0), write_modular_frame(&img, &sx).bytes, write_modular_frame(&img, &sk).bytes], 1));
         }
+        // a frame whose alpha is coded at half resolution (ec_upsampling 2), blended (alpha-using modes) over a layer: the
+        // new frame's alpha covers another region than its colour channels when a region of interest is requested
+        for (name, mode) in [("rgba-24x20-ecup2-blend-over-layer", BLEND_BLEND), ("rgba-24x20-ecup2-muladd-over-layer", BLEND_MULADD)] {
+            let mut fx = FrameHeader::modular_lossless(&img);
+            fx.is_last = false;
+            let mut sx = ModularFrameSpec::new(fx, planes(24, 20, 4, 255, 6));
+            sx.tree = Node::leaf(5);
+            let mut fk = FrameHeader::modular_lossless(&img);
+            fk.ec_upsampling = vec![2];
+            fk.blending_info = BlendingInfo { mode, alpha_channel: 0, clamp: false, source: 0 };
+            fk.ec_blending_info = vec![fk.blending_info.clone()];
+            let mut ch = planes(24, 20, 3, 255, 7);
+            ch.push(tex(12, 10, 3, 255, 8));
+            let mut sk = ModularFrameSpec::new(fk, ch);
+            sk.tree = Node::leaf(5);
+            out.push(item(name, &img, vec![write_modular_frame(&img, &sx).bytes, write_modular_frame(&img, &sk).bytes], 1));
+        }
         // the same with the alpha channel of the patched frame coded at half resolution (ec_upsampling 2)
         let mut f2 = FrameHeader::modular_lossless(&img);
         f2.flags |= FLAG_PATCHES;
